@@ -104,7 +104,7 @@ def run(ctx):
         diffs = [k for k in ("base_offset", "partition_leader_epoch", "attributes", "last_offset_delta", "base_timestamp",
                              "max_timestamp", "producer_id", "producer_epoch", "base_sequence") if hdr[k] != want[k]]
         exp_recs = [{k: v for k, v in dict(x, timestamp=(x["timestamp"] // 1000) * 1000, headers=[tuple(h) for h in x["headers"]]).items()
-                     if k != "tz"} for x in nb["records"]]
+                     if k not in ("tz", "tzoffset")} for x in nb["records"]]
         if diffs or recs != exp_recs:
             prop_bad.append({"what": "batch parameters / records recovered by the independent decoder differ from the input",
                              "fields": diffs, "got": {k: hdr[k] for k in diffs}, "expected": {k: want[k] for k in diffs},
